@@ -33,6 +33,7 @@ type World struct {
 	cronInitErr error
 	resyncOff   bool
 	faultsOff   bool
+	pinnedFired map[int]bool
 	procN       int
 	ctlOpts     ProcOpts
 
@@ -493,6 +494,17 @@ func (w *World) decideFault(p *Proc, c *APICall) string {
 	}
 	for i := range w.Plan.Pinned {
 		pf := &w.Plan.Pinned[i]
+		if pf.AfterMs > 0 {
+			if !w.pinnedFired[i] && w.Sim.Now().Sub(w.Epoch).Milliseconds() >= pf.AfterMs &&
+				(pf.Ctrl == "" || pf.Ctrl == c.Ctrl) && (pf.Verb == "" || pf.Verb == c.Verb) && (pf.Res == "" || pf.Res == string(c.Res)) {
+				if w.pinnedFired == nil {
+					w.pinnedFired = map[int]bool{}
+				}
+				w.pinnedFired[i] = true
+				return w.firePinned(p, pf)
+			}
+			continue
+		}
 		if pf.N > 0 {
 			if pf.N == c.N {
 				return w.firePinned(p, pf)
